@@ -128,7 +128,7 @@ Writes == {"create", "update", "delete"}
 Ev(c, op, kind, key, rev, val) ==
     LET out == Outcome(st, op, key, rev)
         ok == out = "ok"
-    IN [t |-> 0, c |-> c, op |-> op, kind |-> kind, key |-> key, rev |-> rev,
+    IN [t |-> 0, n |-> 0, c |-> c, op |-> op, kind |-> kind, key |-> key, rev |-> rev,
         err |-> IF ok THEN "" ELSE out, inj |-> "",
         nrev |-> IF ok /\ op \in {"create", "update"} THEN LastRev(last, key) + 1 ELSE 0,
         orev |-> IF Present(st, key) THEN st[key].rev ELSE 0,
@@ -137,7 +137,7 @@ Ev(c, op, kind, key, rev, val) ==
 ListEv(c, kind, owner) ==
     LET ks == SeqOfSet({ i \in BIdx : IF kind = "aff" THEN Present(st, AKey(owner, i)) ELSE Present(st, BKey(i)) })
         k(i) == IF kind = "aff" THEN AKey(owner, i) ELSE BKey(i)
-    IN [t |-> 0, c |-> c, op |-> "list", kind |-> kind, owner |-> HostAff(owner), key |-> "", rev |-> 0, err |-> "", inj |-> "",
+    IN [t |-> 0, n |-> 0, c |-> c, op |-> "list", kind |-> kind, owner |-> HostAff(owner), key |-> "", rev |-> 0, err |-> "", inj |-> "",
         nrev |-> 0, orev |-> 0, now |-> now,
         items |-> [j \in DOMAIN ks |-> [key |-> k(ks[j]), rev |-> st[k(ks[j])].rev, val |-> st[k(ks[j])].val]],
         idx |-> ks]
